@@ -37,7 +37,7 @@ RULE = ("one run = one authorisation life cycle: an Intel-HEX signer image, an i
         "save-load-save cycle, then `adm_ledger authorize_signer` against a UI model with n authorisers "
         "(threshold n/2+1) and a current iteration; non-trivial = the device received a SIGVER; distinct "
         "= (iteration class, signing-step kinds, #authorisers, device outcome)")
-TIERS = {"quick": {"runs": 500, "wall": 170}, "thorough": {"runs": 30000, "wall": 2400}}
+TIERS = {"quick": {"runs": 6000, "wall": 240}, "thorough": {"runs": 120000, "wall": 3000}}
 MUTANT_RUNS = 600
 MUTANT_WALL = 150
 COMPONENTS = {
